@@ -184,7 +184,6 @@ Qed.
 (* ---------- the root ---------- *)
 Hypothesis Hn : (1 <= n)%nat.
 Hypothesis Hrc : 0 < root_count C.
-Hypothesis Ht : (1 <= t)%nat.
 
 Let r := root C.
 
